@@ -25,6 +25,12 @@ bytes) -> deserialize; EventQueueManager.inject_message on a real Session/Proxie
                               serializer).  Site "LLSDMessageSerializer:<op1>-then-<op2>:<MVT type | block:<name> | raises>".
                               Families msg / hist use a fresh serializer and a fresh EventQueueManager per case, so no history
                               leaks between cases.
+  clause msg-eq-snapshot      (family "eqsnap") the queue holds each message AS INJECTED: on a real EventQueueManager, for every
+                              template, every start row k and every sequence over {I = inject_message(m), M = rewrite every
+                              variable of the same Message object in place with the next value row} starting with I, of length
+                              <= 3 (thorough <= 4), take_injected_events() yields one event per I (and one wake-up datagram per
+                              I) and event i deserializes to the value row m held at the i-th injection.  Site
+                              "EventQueueManager.inject_message:<sequence>:<MVT type>".
   clause msg-eq-inject        the injected event equals the serializer output (value and LLSD type), exactly one event is
                               queued and exactly one PlacesQuery wake-up datagram is sent
 
@@ -1201,6 +1207,89 @@ def check_history_eq(part: Part, gen, small, full, op1: str, op2: str, vtypes):
     part.mark_nontrivial(("hist-eq", name, small["tag"], op1, op2))
 
 
+# ---- event-queue snapshot: the queue must hold the message AS INJECTED ---------------------------------------------------
+def eq_sequences(quick: bool) -> List[str]:
+    """Every sequence over {I = inject_message(m), M = rewrite every variable of the SAME Message object m in place with the
+    next value row} that starts with I, of length <= 3 (thorough: <= 4); a take_injected_events() closes each sequence."""
+    out = []
+    frontier = ["I"]
+    for _ in range(3 if quick else 4):
+        out += frontier
+        frontier = [q + op for q in frontier for op in "IM"]
+    return out
+
+
+def _row_case(gen, name: str, k: int) -> dict:
+    return {"name": name, **_HDR, "blocks": gen.blocks(gen.templates[name], k, {}), "tag": f"row{k}"}
+
+
+def _mutate_in_place(gen, msg, case: dict):
+    """Give every variable of every block of `msg` the value it has in `case` (same shape), through Block.__setitem__."""
+    for bname, rows in gen.expected_values(case):
+        for blk, row in zip(msg.blocks[bname], rows):
+            for vn, val in row.items():
+                blk[vn] = val
+
+
+def check_eq_snapshot(part: Part, gen, name: str, k: int, seq: str, vtypes):
+    witness = {"family": "eqsnap", "seed": gen.seed, "name": name, "row": k, "seq": seq}
+    part.count("evaluations")
+    part.count("eqsnap_evaluations")
+    _, _, region, transport = _eq_world()
+    eqm = _fresh_eqm(region)
+    del transport.packets[:]
+    cur = k
+    msg = gen.lib_message(_row_case(gen, name, cur))
+    injected: List[int] = []  # value row the message had at each injection
+    try:
+        for op in seq:
+            if op == "I":
+                eqm.inject_message(msg)
+                injected.append(cur)
+            else:
+                cur += 1
+                _mutate_in_place(gen, msg, _row_case(gen, name, cur))
+        events = eqm.take_injected_events()
+        n_wake = len(transport.packets)
+    except Exception as e:
+        part.violation("msg-eq-snapshot", f"EventQueueManager.inject_message:{seq}:raises", witness, f"{name}: raised {type(e).__name__}: {str(e)[:200]}")
+        return
+    finally:
+        del transport.packets[:]
+    if len(events) != len(injected) or n_wake != len(injected):
+        part.violation("msg-eq-snapshot", f"EventQueueManager.inject_message:{seq}:event-count", witness,
+                       f"{name}: {len(injected)} injections -> {len(events)} events, {n_wake} wake-up datagrams")
+        return
+    for i, (ev, row_k) in enumerate(zip(events, injected)):
+        case_then = _row_case(gen, name, row_k)
+        try:
+            dec = LLSDMessageSerializer().deserialize(ev)
+        except Exception as e:
+            part.violation("msg-eq-snapshot", f"EventQueueManager.take_injected_events:{seq}:deserialize", witness,
+                           f"{name}: event {i + 1} does not deserialize: {type(e).__name__}: {str(e)[:200]}")
+            continue
+        exp_blocks = gen.expected_values(case_then)
+        if dec.name != name or list(dec.blocks.keys()) != [b for b, _ in exp_blocks]:
+            part.violation("msg-eq-snapshot", f"EventQueueManager.inject_message:{seq}:blocks", witness,
+                           f"{name}: event {i + 1}: {dec.name} {list(dec.blocks.keys())}")
+            continue
+        for bname, rows in exp_blocks:
+            got = dec.blocks[bname]
+            if len(got) != len(rows):
+                part.violation("msg-eq-snapshot", f"EventQueueManager.inject_message:{seq}:block:{bname}", witness,
+                               f"{name}: event {i + 1}: {len(got)} x {bname}, injected {len(rows)}")
+                continue
+            for j, (gb, row) in enumerate(zip(got, rows)):
+                for vn, exp in row.items():
+                    if vn not in gb.vars or not same_llsd_value(gb.vars[vn], exp):
+                        t = vtypes[(bname, vn)]
+                        part.violation("msg-eq-snapshot", f"EventQueueManager.inject_message:{seq}:{t.name}", witness,
+                                       f"{name}.{bname}[{j}].{vn}: event {i + 1} of {len(events)} (injected with value row {row_k}, message "
+                                       f"later rewritten up to row {cur}) carries {gb.vars.get(vn)!r}, the message held {exp!r} when injected")
+    part.outcome(("eqsnap", seq, len(events), digest_canon_c(canon(events[-1]))))
+    part.mark_nontrivial(("eqsnap", name, k, seq))
+
+
 def check_history(part: Part, gen, name: str, vtypes):
     for small, full in history_pairs(gen, name):
         try:
@@ -1234,6 +1323,7 @@ def digest_canon(d) -> str:
 _G: msggen.Gen = None
 _TREES: List[Any] = []
 _REALS: List[Tuple[int, str]] = []
+_EQ_SEQS: List[str] = []
 
 
 def _set_tz(tz: str):
@@ -1265,6 +1355,10 @@ def _work(unit):
             for c in gen.count_variants(name):
                 check_msg_case(part, gen, c, LLSDMessageSerializer(), vtypes, de_udp)
             check_history(part, gen, name, vtypes)
+            if gen.templates[name].blocks:
+                for k in range(gen.n_rows(gen.templates[name])):
+                    for seq in _EQ_SEQS:
+                        check_eq_snapshot(part, gen, name, k, seq, vtypes)
     elif kind == "tree":
         _, tz, lo, hi = unit
         _set_tz(tz)
@@ -1296,7 +1390,7 @@ def _forked_map(fn, items, jobs: int):
 
 
 def run(run: Run):
-    global _G, _TREES, _REALS
+    global _G, _TREES, _REALS, _EQ_SEQS
     quick = run.tier == "quick"
     t0 = time.time()
     _G = make_gen(run.seed)
@@ -1313,6 +1407,7 @@ def run(run: Run):
         for lo in range(0, len(_TREES), chunk):
             units.append(("tree", tz, lo, min(lo + chunk, len(_TREES))))
     _REALS = real_sweep(quick)
+    _EQ_SEQS = eq_sequences(quick)
     for lo in range(0, len(_REALS), 1500):
         units.append(("real", lo, min(lo + 1500, len(_REALS))))
     us_hi = 20_000 if quick else 1_000_000
@@ -1329,12 +1424,13 @@ def run(run: Run):
         "EventQueueManager.inject_message (fresh serializer / manager per case); hist: for every template with >= 2 blocks or a Variable "
         "block, every (m_small, m_full) pair (trailing-block omissions, counts 0, one Variable block left out) x all 25 ordered pairs of "
         "{serialize small/full, deserialize dict small/full, deserialize xml full} on one serializer instance vs a fresh instance per "
-        "operation, + 4 ordered pairs of inject_message on one EventQueueManager; tree: all %d LLSD trees (incl. the 2^7-1 presence/absence combinations of apostrophe, double quote, backslash, LF, CR, NUL, non-ASCII x 3 orders as string leaves, "
+        "operation, + 4 ordered pairs of inject_message on one EventQueueManager; eqsnap: every template x every start row x every {inject, rewrite-in-place} sequence starting with "
+        "inject of length <= %d on one EventQueueManager; tree: all %d LLSD trees (incl. the 2^7-1 presence/absence combinations of apostrophe, double quote, backslash, LF, CR, NUL, non-ASCII x 3 orders as string leaves, "
         "each alone and each-choice in arrays/maps) of depth <= %d over %d base leaves / containers {array,map} of size 0..2 "
         "(each-choice sibling pairs%s; %d map keys cycled) x %d codecs x %d process time zones; real: %d F32/F64 bit patterns (every exponent x mantissa "
         "patterns x signs) x 6 codecs; us: every microsecond value 0..%d of one "
         "date x {binary, notation, xml}. distinct_nontrivial = distinct (template, block counts, row tag) + distinct (tz, codec, tree "
-        "shape, leaf-kind set)" % (len(names), len(_TREES), depth, len(BASE_LEAVES), "" if quick else ", full cross product at depth 2",
+        "shape, leaf-kind set)" % (len(names), 3 if quick else 4, len(_TREES), depth, len(BASE_LEAVES), "" if quick else ", full cross product at depth 2",
                                    len(KEYS), len(CODECS), len(TZS), len(_REALS), us_hi - 1))
     run.assumptions += [
         "message value domain = what LLSD/XML can carry: finite floats, str without code points forbidden by XML 1.0 (and without "
@@ -1365,6 +1461,10 @@ def _replay_child(w):
     elif fam == "us":
         _set_tz("UTC")
         check_us(part, w["codec"], int(w["us"]))
+    elif fam == "eqsnap":
+        _set_tz("UTC")
+        gen = make_gen(int(w.get("seed", 0)))
+        check_eq_snapshot(part, gen, w["name"], int(w["row"]), w["seq"], _var_types(w["name"]))
     elif fam == "hist":
         _set_tz("UTC")
         gen = make_gen(int(w.get("seed", 0)))
